@@ -121,6 +121,22 @@ def step (_ : Unit) (ts : List String) : Unit × String :=
           s!"{c.1} {c.2} {roundMsD d} {fieldsStr (calcD ms)} {str (toUTCStringD .full ms)}"
         else "range"
       | none => "bad-op"
+    | ["addsec", a, b] => match a.toInt?, b.toInt? with
+      | some ms, some sec =>
+        if inRange ms && inRange (ms + 1000 * sec) then
+          let d := addSecD (toDouble ms) sec
+          let c := normD 64 d.1 d.2
+          s!"{c.1} {c.2} {roundMsD d} {fieldsStr (calcF (roundMsD d))} {str (toUTCString .full (roundMsD d))}"
+        else "range"
+      | _, _ => "bad-op"
+    | ["cmp", a, b] => match a.toInt?, b.toInt? with
+      | some m1, some m2 =>
+        if inRange m1 && inRange m2 then
+          let lt := ltD (toDouble m1) (toDouble m2)
+          let gt := ltD (toDouble m2) (toDouble m1)
+          s!"lt={if lt then 1 else 0} le={if gt then 0 else 1} gt={if gt then 1 else 0}"
+        else "range"
+      | _, _ => "bad-op"
     | ["splitu", a] => match a.toInt? with
       | some u => if inRange (roundMs u) then fieldsStr (calcU u) else "range"
       | none => "bad-op"
